@@ -31,6 +31,13 @@ def plan(tier, seed, kf_ids):
                 jobs.append(Job(name, code, "for every value of %s: to_num::<%s> (and checked_/overflowing_) is the IEEE-754 "
                                 "RNE result incl. subnormals and overflow to infinity" % (al, ft),
                                 timeout=1200, inst="%s->%s" % (al, ft), bounds="all 2^%d values" % w))
+        if fr:
+            f0 = fr[-1]
+            for ft in ("f32", "f64"):
+                name = "c05_lossy_%s_%s" % (c.tag(s, w, f0), ft)
+                code = "#[kani::proof]\npub fn %s() { lossy_float::<%s, %s>(); }" % (name, c.ty(s, w, f0), ft)
+                jobs.append(Job(name, code, "for every value of %s: %s::lossy_from(x) has the bit pattern of x.to_num::<%s>()" % (c.alias(s, w, f0), ft, ft),
+                                timeout=1200, inst="%s->%s" % (c.alias(s, w, f0), ft), bounds="all 2^%d values" % w))
         # non-finite inputs: one layout per family
         f = fr[0]
         for ft in ("f32", "f64"):
